@@ -552,6 +552,18 @@ func main() {
 	explore(states, states, 1, dr)
 	R.Sample("transition", map[string]any{"op": "Subtract", "alias": "v=p|q", "p": states[3].desc, "q": states[3].desc, "model": "inf"})
 
+	// representatives steered at the multiplications by the small curve constant (see mc.SmallMulOverflowZ): P = 3G in
+	// every such scaling against 5G (Z = 1 and Z = 2), itself and its negative
+	{
+		g3, g5 := ref.G().Mul(big.NewInt(3)), ref.G().Mul(big.NewInt(5))
+		var st []St
+		for _, z := range mc.SmallMulOverflowZ(g3.X, g5.X) {
+			st = append(st, rep(g3, z.V))
+		}
+		R.Class("level1/representatives steered at the multiply-by-constant wraps", int64(len(st)))
+		explore(st, []St{rep(g5, big.NewInt(1)), rep(g5, big.NewInt(2)), rep(g3, big.NewInt(1)), rep(g3.Neg(), big.NewInt(1))}, 1, nil)
+	}
+
 	// level 2: drifted representatives (results of Add/Subtract/Double) as new states
 	var l2 []St
 	keys := make([]string, 0, len(dr.per))
